@@ -329,6 +329,21 @@ def run_all(harness, driver, progs, tag, timeout=900):
     jobs = [(harness, p) for p in files] + ([(driver, p) for p in files] if driver else [])
     with ThreadPoolExecutor(max_workers=V.NCPU) as ex:
         outs = list(ex.map(lambda j: run_tool(j[0], j[1], timeout), jobs))
+    # a process that died (crash inside gatery, timeout) loses its whole chunk: rerun that chunk one
+    # program per process so that only the crashing program is affected
+    redo = []
+    for ji, ((exe, p), (rc, out)) in enumerate(zip(jobs, outs)):
+        if rc != 0 and exe == harness and ji < len(files) and len(chunks[ji]) > 1:
+            for n, (pid, lines) in enumerate(chunks[ji]):
+                q = WORK / f"{tag}_{ji}_{n}.txt"
+                q.write_text("\n".join(lines) + "\n")
+                redo.append((exe, q))
+            outs[ji] = (0, "")
+    if redo:
+        with ThreadPoolExecutor(max_workers=V.NCPU) as ex:
+            outs2 = list(ex.map(lambda j: run_tool(j[0], j[1], 120), redo))
+        jobs = jobs + redo
+        outs = outs + outs2
     for (exe, p), (rc, out) in zip(jobs, outs):
         if rc != 0:
             errs.append(f"{os.path.basename(exe)} {p.name} rc={rc}: {out[-400:]}")
@@ -695,7 +710,7 @@ def main():
 
     # ---- verdict
     proof_broken = (not res_proof["ok"]) or driver is None
-    hard = [m for m in mism if m[2] in ("impl-vs-oracle", "impl-vs-sequential", "postprocess-changes-values", "postprocess-exception")]
+    hard = [m for m in mism if m[2] in ("impl-vs-oracle", "impl-vs-sequential", "postprocess-changes-values", "postprocess-exception", "impl-exception")]
     info = [m for m in mism if m[2].startswith("info-")]
     rep.cov["histogram"]["cases_post_less_defined_under_undefined_condition"] = len(info)
     mism = [m for m in mism if not m[2].startswith("info-")]
@@ -708,14 +723,15 @@ def main():
         vec = vecs[int(k)] if k != "-" else None
         return dict(property=CID, what_broke=cat, detail=det, program=[l for l in lines if not l.startswith(("V ", "I ")) and l != "E"] +
                     (["V 1", "I " + " ".join(vec), "E"] if vec else ["V 0", "E"]),
-                    input=vec, how_to_replay="python3 checks/C05.py --replay <this file>")
+                    input=vec, expected_sequential_run=(res.get((pid, str(k), "MS")) if lines_override is None else None),
+                    how_to_replay="python3 checks/C05.py --replay <this file>")
 
     known_progs = set()
     if hard:
         # concrete failing inputs.  One report per (category, feature) group, shrunk while time allows.
         def primary(cats):
             raw = [c for c in cats if c[0] in ("impl-vs-oracle", "impl-vs-sequential") and c[1].get("stage") == "un-postprocessed"]
-            for name in ("postprocess-exception",):
+            for name in ("impl-exception", "postprocess-exception"):
                 for c in cats:
                     if c[0] == name: return c
             if raw: return raw[0]
@@ -743,7 +759,7 @@ def main():
                 dets = [d for c, d in compare_case(r2, pid, "0") if c == cat]
                 if dets:
                     lines, det, k = cand, dets[0], 0
-            ftag = exception_tag(det) if cat == "postprocess-exception" else feature_tag(lines or progd[pid])
+            ftag = exception_tag(det) if cat in ("postprocess-exception", "impl-exception") else feature_tag(lines or progd[pid])
             if (cat, ftag) in groups:
                 groups[(cat, ftag)]["count"] += 1
                 groups[(cat, ftag)]["pids"].add(pid)
